@@ -179,8 +179,7 @@ fn deliver_corrupted(cx: &mut Cx, s: u64, f: CredFrame, sk: Bytes, issuer: NodeI
     }
     // (2) every single-element list fault for small L, a sample otherwise
     let l = lnorm(&f.msgs).len();
-    let all = ListFault::all(l);
-    let picks: Vec<ListFault> = if all.len() <= 70 { all } else { (0..40).map(|_| ListFault::random(&mut cx.ch, l)).collect() };
+    let picks: Vec<ListFault> = ListFault::pick(&mut cx.ch, l, 70, 30);
     for lf in picks {
         let mut g = f.clone();
         let mut v = g.msgs.take().unwrap_or_default();
